@@ -240,35 +240,93 @@ pub struct AymPrecise { _p: u8 }
 #[verifier::external_body]
 pub struct MixerRest { _p: u8 }
 
+/// ghost logs of the calls that reach the external devices (what the devices do with them is the
+/// subject of the screen / border / mixer / tape units; that the controller makes them, in order
+/// and with these arguments, is proved here)
+pub enum ScreenCall { NewFrame, Clocks(usize), Bank(usize) }
+pub enum BorderCall { NewFrame, Set(usize, ZXColor) }
+pub enum MixCall { NewFrame, Process }
+
+/// the border-colour changes / display-bank switches among the logged calls (frame-boundary
+/// notifications dropped): what the timing functions must leave alone
+pub open spec fn border_sets(c: Seq<BorderCall>) -> Seq<(usize, ZXColor)>
+    decreases c.len(),
+{
+    if c.len() == 0 { Seq::empty() } else {
+        match c.last() {
+            BorderCall::Set(t, col) => border_sets(c.drop_last()).push((t, col)),
+            BorderCall::NewFrame => border_sets(c.drop_last()),
+        }
+    }
+}
+pub open spec fn screen_banks(c: Seq<ScreenCall>) -> Seq<usize>
+    decreases c.len(),
+{
+    if c.len() == 0 { Seq::empty() } else {
+        match c.last() {
+            ScreenCall::Bank(b) => screen_banks(c.drop_last()).push(b),
+            _ => screen_banks(c.drop_last()),
+        }
+    }
+}
+/// total time of in-frame clock `c` of frame number `pf`
+pub open spec fn at_time(pf: int, len: int, c: usize) -> int { pf * len + c as int }
+pub broadcast proof fn lemma_border_sets_push(c: Seq<BorderCall>, x: BorderCall)
+    ensures #[trigger] border_sets(c.push(x)) == (match x {
+        BorderCall::Set(t, col) => border_sets(c).push((t, col)),
+        BorderCall::NewFrame => border_sets(c) }),
+{
+    assert(c.push(x).drop_last() =~= c);
+}
+pub broadcast proof fn lemma_screen_banks_push(c: Seq<ScreenCall>, x: ScreenCall)
+    ensures #[trigger] screen_banks(c.push(x)) == (match x {
+        ScreenCall::Bank(b) => screen_banks(c).push(b),
+        _ => screen_banks(c) }),
+{
+    assert(c.push(x).drop_last() =~= c);
+}
+pub broadcast group group_call_logs { lemma_border_sets_push, lemma_screen_banks_push }
+
 impl<FB> ZXScreen<FB> {
     /// ghost log of `update(rel_addr, bank, data)` calls (the shadow-of-display-memory feed, C08)
     pub uninterp spec fn updates(&self) -> Seq<(u16, usize, u8)>;
+    pub uninterp spec fn calls(&self) -> Seq<ScreenCall>;
     #[verifier::external_body]
     pub fn new_frame(&mut self)
-        ensures final(self).updates() == old(self).updates(),
+        ensures final(self).updates() == old(self).updates(), final(self).calls() == old(self).calls().push(ScreenCall::NewFrame),
     { unimplemented!() }
     #[verifier::external_body]
     pub fn process_clocks(&mut self, clocks: usize)
-        ensures final(self).updates() == old(self).updates(),
+        ensures final(self).updates() == old(self).updates(), final(self).calls() == old(self).calls().push(ScreenCall::Clocks(clocks)),
     { unimplemented!() }
     #[verifier::external_body]
     pub fn switch_bank(&mut self, bank: usize)
-        ensures final(self).updates() == old(self).updates(),
+        ensures final(self).updates() == old(self).updates(), final(self).calls() == old(self).calls().push(ScreenCall::Bank(bank)),
     { unimplemented!() }
     #[verifier::external_body]
     pub fn update(&mut self, rel_addr: u16, bank: usize, data: u8)
-        ensures final(self).updates() == old(self).updates().push((rel_addr, bank, data)),
+        ensures final(self).updates() == old(self).updates().push((rel_addr, bank, data)), final(self).calls() == old(self).calls(),
     { unimplemented!() }
 }
 impl<FB> ZXBorder<FB> {
+    pub uninterp spec fn calls(&self) -> Seq<BorderCall>;
     #[verifier::external_body]
-    pub fn new_frame(&mut self) { unimplemented!() }
+    pub fn new_frame(&mut self)
+        ensures final(self).calls() == old(self).calls().push(BorderCall::NewFrame),
+    { unimplemented!() }
     #[verifier::external_body]
-    pub fn set_border(&mut self, clocks: usize, color: ZXColor) { unimplemented!() }
+    pub fn set_border(&mut self, clocks: usize, color: ZXColor)
+        ensures final(self).calls() == old(self).calls().push(BorderCall::Set(clocks, color)),
+    { unimplemented!() }
 }
 impl<A> ZXTape<A> {
+    /// ghost: clock counts handed to the tape, and what the tape will answer to the next one
+    pub uninterp spec fn calls(&self) -> Seq<usize>;
+    pub uninterp spec fn answer(&self, clocks: usize) -> core::result::Result<(), Error>;
     #[verifier::external_body]
-    pub fn process_clocks(&mut self, clocks: usize) -> core::result::Result<(), Error> { unimplemented!() }
+    pub fn process_clocks(&mut self, clocks: usize) -> (r: core::result::Result<(), Error>)
+        ensures final(self).calls() == old(self).calls().push(clocks), r == old(self).answer(clocks),
+    { unimplemented!() }
     #[verifier::external_body]
     pub fn current_bit(&self) -> bool { unimplemented!() }
 }
@@ -324,13 +382,16 @@ pub struct ZXMixer {
     pub rest: MixerRest,
 }
 impl ZXMixer {
+    pub uninterp spec fn calls(&self) -> Seq<MixCall>;
     #[verifier::external_body]
     pub fn process(&mut self, current_time: f64)
         ensures final(self).beeper == old(self).beeper, final(self).ay == old(self).ay,
+            final(self).calls() == old(self).calls().push(MixCall::Process),
     { unimplemented!() }
     #[verifier::external_body]
     pub fn new_frame(&mut self)
         ensures final(self).beeper == old(self).beeper, final(self).ay == old(self).ay,
+            final(self).calls() == old(self).calls().push(MixCall::NewFrame),
     { unimplemented!() }
 }
 
@@ -369,6 +430,8 @@ impl ZXAyChip {
         requires old(self).wf(),
         ensures final(self).wf(), final(self).current_reg == old(self).current_reg,
             final(self).regs@ == old(self).regs@.update(old(self).current_reg as int, data),
+            // C18: the write reaches the sound generator, with the selected register number
+            final(self).ay.writes() == old(self).ay.writes().push((old(self).current_reg as u8, data)),
 //@ end
 //@ fn rustzx-core/src/zx/sound/ay.rs impl ZXAyChip::set_regs props C14 C15
 //@ sig
@@ -530,6 +593,9 @@ impl<H: Host> ZXController<H> {
         &&& self.paging_enabled == o.paging_enabled
         &&& self.screen_bank == o.screen_bank
         &&& self.current_port_7ffd == o.current_port_7ffd
+        // no border-colour change and no display-bank switch reaches the devices
+        &&& border_sets(self.border.calls()) == border_sets(o.border.calls())
+        &&& screen_banks(self.screen.calls()) == screen_banks(o.screen.calls())
     }
 
     #[verifier::external_body]
@@ -542,6 +608,13 @@ impl<H: Host> ZXController<H> {
             final(self).frame_clocks as int == old(self).frame_clocks as int - frame_len(old(self).machine),
             final(self).passed_frames == old(self).passed_frames,
             final(self).same_core(old(self)),
+            // every per-frame device is told about the frame boundary (C08 flash counter, C09, C19)
+            final(self).screen.calls() == old(self).screen.calls().push(ScreenCall::NewFrame),
+            final(self).border.calls() == old(self).border.calls().push(BorderCall::NewFrame),
+            final(self).mixer.calls() == old(self).mixer.calls().push(MixCall::NewFrame),
+            final(self).tape == old(self).tape, final(self).last_emulation_error == old(self).last_emulation_error,
+//@ at 0 //
+        broadcast use group_call_logs;
 //@ end
 
 //@ fn rustzx-core/src/zx/controller.rs impl <H:Host>Z80BusforZXController<H>::wait_internal props C04 C05
@@ -554,6 +627,20 @@ impl<H: Host> ZXController<H> {
             final(self).passed_frames as int <= old(self).passed_frames as int + 1,
             final(self).passed_frames >= old(self).passed_frames,
             final(self).same_core(old(self)),
+            // every clocked device sees the elapsed time: the tape the delta, the screen the new
+            // in-frame clock, the mixer one process call - then the frame-end calls if the frame ended
+            final(self).tape.calls() == old(self).tape.calls().push(clk),
+            ({ let t1 = (old(self).frame_clocks + clk) as usize;
+               let wrapped = t1 as int >= frame_len(old(self).machine);
+               &&& final(self).screen.calls() == (if wrapped { old(self).screen.calls().push(ScreenCall::Clocks(t1)).push(ScreenCall::NewFrame) }
+                                                  else { old(self).screen.calls().push(ScreenCall::Clocks(t1)) })
+               &&& final(self).mixer.calls() == (if wrapped { old(self).mixer.calls().push(MixCall::Process).push(MixCall::NewFrame) }
+                                                 else { old(self).mixer.calls().push(MixCall::Process) })
+               &&& final(self).border.calls() == (if wrapped { old(self).border.calls().push(BorderCall::NewFrame) } else { old(self).border.calls() }) }),
+            // a tape failure is latched for emulate_frames to report
+            final(self).last_emulation_error == (match old(self).tape.answer(clk) { Err(e) => Some(e), Ok(_) => old(self).last_emulation_error }),
+//@ at 0 //
+        broadcast use group_call_logs;
 //@ at 1 /self\.frame_clocks \+= clk/
         proof {
             let f = frame_len(self.machine); let pf = self.passed_frames as int;
@@ -668,17 +755,21 @@ impl<H: Host> ZXController<H> {
             final(self).inv_l(false),
             // once locked (or on the 48K) every paging write is ignored
             !old(self).paging_enabled ==> final(self).memory == old(self).memory
+                && final(self).screen.calls() == old(self).screen.calls()
                 && final(self).current_port_7ffd == old(self).current_port_7ffd
                 && final(self).paging_enabled == old(self).paging_enabled
                 && final(self).screen_bank == old(self).screen_bank,
             // an accepted write becomes the latch; the map follows from paging_inv; RAM/ROM contents untouched
             old(self).paging_enabled ==> final(self).current_port_7ffd == val
                 && final(self).screen_bank == (if val & 0x08 == 0 { 5u8 } else { 7u8 })
+                // C08: the display is switched to the bank bit 3 selects
+                && final(self).screen.calls() == old(self).screen.calls().push(ScreenCall::Bank(if val & 0x08 == 0 { 5usize } else { 7usize }))
                 && final(self).memory.rom@ == old(self).memory.rom@
                 && final(self).memory.ram@ == old(self).memory.ram@,
             final(self).machine == old(self).machine,
             final(self).frame_clocks == old(self).frame_clocks,
             final(self).passed_frames == old(self).passed_frames,
+            final(self).border == old(self).border, final(self).tape == old(self).tape,
             final(self).mixer == old(self).mixer,
             final(self).border_color == old(self).border_color,
             final(self).io_extender == old(self).io_extender,
@@ -746,6 +837,9 @@ impl<H: Host> ZXController<H> {
 //@ fn rustzx-core/src/zx/controller.rs impl <H:Host>ZXController<H>::set_border_color props C07 C09
 //@ sig
         ensures final(self).border_color == color,
+            // C09: the border device is told the colour and the in-frame time of the change
+            final(self).border.calls() == old(self).border.calls().push(BorderCall::Set(clocks, color)),
+            final(self).screen == old(self).screen,
             final(self).machine == old(self).machine, final(self).memory == old(self).memory,
             final(self).mixer == old(self).mixer, final(self).io_extender == old(self).io_extender,
             final(self).frame_clocks == old(self).frame_clocks, final(self).passed_frames == old(self).passed_frames,
@@ -796,6 +890,15 @@ impl<H: Host> ZXController<H> {
                 && final(self).border_color == ZXColor::of_bits(data & 0x07)
                 && final(self).mixer.beeper.mic == (data & 0x08 != 0)
                 && final(self).mixer.beeper.ear == (data & 0x10 != 0),
+            // C09: ... and the border device is told the new colour together with the in-frame clock
+            // at which the write happens (after the first, N:1 / C:1, part of the port cycle)
+            sel_ula(port) && old(self).ndev_w(port) == 1 ==> exists|c: usize, pf: int|
+                border_sets(final(self).border.calls()) == border_sets(old(self).border.calls()).push((c, ZXColor::of_bits(data & 0x07)))
+                && #[trigger] at_time(pf, frame_len(old(self).machine), c)
+                    == (if old(self).contended(port) { c_then(old(self).machine, old(self).total(), 1) } else { old(self).total() + 1 })
+                && (c as int) < frame_len(old(self).machine),
+            // odd ports never reach the border
+            !sel_ula(port) ==> border_sets(final(self).border.calls()) == border_sets(old(self).border.calls()),
             // AY register select
             sel_ay_select(port) && old(self).ndev_w(port) == 1 ==> final(self).dev_same(old(self), true, false, true, true)
                 && final(self).mixer.ay.current_reg == (data & 0x0F) as usize
@@ -809,15 +912,25 @@ impl<H: Host> ZXController<H> {
             sel_paging(old(self).machine, port) && old(self).ndev_w(port) == 1 ==>
                 final(self).memory.rom@ == old(self).memory.rom@ && final(self).memory.ram@ == old(self).memory.ram@,
             sel_paging(old(self).machine, port) && old(self).ndev_w(port) == 1 && old(self).paging_enabled ==>
-                final(self).current_port_7ffd == data,
+                final(self).current_port_7ffd == data
+                // C08: the display switches to the bank bit 3 selects
+                && screen_banks(final(self).screen.calls()) == screen_banks(old(self).screen.calls()).push(if data & 0x08 == 0 { 5usize } else { 7usize }),
+            // nothing else ever switches the display bank
+            !(sel_paging(old(self).machine, port) && old(self).paging_enabled) ==>
+                screen_banks(final(self).screen.calls()) == screen_banks(old(self).screen.calls()),
             sel_paging(old(self).machine, port) && old(self).ndev_w(port) == 1 && !old(self).paging_enabled ==>
                 final(self).current_port_7ffd == old(self).current_port_7ffd && final(self).memory == old(self).memory,
             // on the 48K the paging latch does not exist
             is48(old(self).machine) ==> final(self).memory == old(self).memory,
 //@ closure 1 /\|e\|/ vx_r: bool
                 ensures vx_r == e.claims(port),
+//@ at 0 //
+        broadcast use group_call_logs;
 //@ at 1 /self\.set_border_color/
-            proof { assert(data & 0x07 <= 7) by(bit_vector); }
+            proof {
+                assert(data & 0x07 <= 7) by(bit_vector);
+                assert(at_time(self.passed_frames as int, frame_len(self.machine), self.frame_clocks) == self.total());
+            }
 //@ after 1 /self\.write_7ffd\(data\);/
             proof {
                 assert(port & 0x8002 == 0 ==> port < 0x8000) by(bit_vector);
@@ -923,6 +1036,7 @@ impl<H: Host> ZXController<H> {
         &&& self.frame_clocks == o.frame_clocks && self.passed_frames == o.passed_frames
         &&& self.paging_enabled == o.paging_enabled && self.screen_bank == o.screen_bank
         &&& self.current_port_7ffd == o.current_port_7ffd
+        &&& self.border == o.border && self.screen == o.screen && self.tape == o.tape
     }
 }
 
